@@ -65,6 +65,7 @@ def single_value(win, typ, size, ua_name, ua, ws):
 
 
 _byred = {}
+_kept = {}
 
 
 def check_call(seq, typ, size, ua_name, ua, w, s, ws, case, out, obj=None):
@@ -90,6 +91,13 @@ def check_call(seq, typ, size, ua_name, ua, w, s, ws, case, out, obj=None):
         v("window-gt-length-answered", "%s (N=%d) was answered" % (tag, N))
         return 1
     arr = np.asarray(arr)
+    if obj is not None:
+        # a result handed out earlier must not change when the same object answers a later call
+        prev = _kept.get(id(obj))
+        if prev is not None and not np.array_equal(prev[0], prev[1]):
+            v("earlier-result-changed", "%s: the array returned by the previous call (%s) was modified by this call" % (tag, prev[2]))
+        _kept.clear()
+        _kept[id(obj)] = (arr, arr.copy(), tag)
     K = (N - w) // s + 1
     if arr.shape != (2, K):
         v("shape", "%s: shape %r, expected (2,%d)" % (tag, arr.shape, K))
@@ -155,6 +163,40 @@ def check_case(case):
                 continue
             out.append({"key": "unknown-type-accepted", "what": "%s: complexityType=%r was answered with %r" % (seq, bad, r),
                         "case": dict(case, bad=bad)})
+    elif case["kind"] == "long-then-short":
+        # fresh package; long sequences lacking whole reduced classes first, then the usual short-word battery
+        from ..engines.history import fresh_world
+        from localcider.sequenceParameters import SequenceParameters as SP
+        fresh_world()
+        from localcider.sequenceParameters import SequenceParameters as SP  # noqa (re-imported)
+        _single.clear()
+        _byred.clear()
+        longs = [("GSQNTAKEDR" * 14)[:case["L"]], ("LVIMAG" * 25)[:case["L"]], ("KE" * 80)[:case["L"]], ("ST" * 80)[:case["L"]]]
+        for seq in longs:
+            o = SP(seq)
+            for size in case["sizes"]:
+                for typ in TYPES:
+                    for w in (5, 10):
+                        calls += 1
+                        try:
+                            arr = np.asarray(o.get_linear_complexity(typ, size, blobLen=w))
+                        except Exception as e:  # noqa
+                            out.append({"key": "rejects-valid-call", "what": "%d-mer %s size %s w=%d raised %r" % (len(seq), typ, size, w, e),
+                                        "case": dict(case, seq=seq)})
+                            continue
+                        if typ == "WF":
+                            for k in (0, len(seq) // 2, len(seq) - w):
+                                red, A = reduce_ref(seq[k:k + w], size, None)
+                                if not core.close(arr[1][k], entropy(red, A), 1e-9, 1e-12):
+                                    out.append({"key": "WF-entropy", "what": "%d-mer size %s w=%d window %d: %r vs entropy %r"
+                                                % (len(seq), size, w, k, float(arr[1][k]), entropy(red, A)), "case": dict(case, seq=seq)})
+                                    break
+        for word in case["words"]:
+            sub = {"kind": "word", "seq": word, "sizes": case["sizes"], "uas": []}
+            o2, c2 = check_case(sub)
+            out += [dict(x, case=dict(x["case"], after_long_sequences=True, kind="long-then-short", L=case["L"], words=case["words"],
+                                      sizes=case["sizes"])) for x in o2]
+            calls += c2
     elif case["kind"] == "lattice":
         from localcider.sequenceParameters import SequenceParameters as SP
         N = case["N"]
@@ -189,7 +231,7 @@ def shard(cases):
         acc.evaluations += calls
         if case["kind"] == "word" and len(set(case["seq"])) > 1:
             acc.nontrivial += 1
-        acc.out(case.get("seq", case.get("N")))
+        acc.out(case.get("seq", case.get("N", case.get("L"))))
         for x in v:
             acc.viol(x["key"], x["what"], x["case"])
         if case["kind"] == "word" and len(case["seq"]) >= 4 and len(set(case["seq"])) >= 3:
@@ -211,7 +253,9 @@ def run(tier, seed, t0):
             cases.append({"kind": "word", "seq": w, "sizes": sizes, "uas": uas})
     for N in range(1, NL + 1):
         cases.append({"kind": "lattice", "N": N})
-    cases.sort(key=lambda c: -(len(c["seq"]) ** 3 if "seq" in c else c["N"] ** 2 / 8))
+    cases.append({"kind": "long-then-short", "L": 130, "sizes": [2, 3, 4, 6] if tier == "quick" else list(T.SIZES),
+                  "words": ["LKF", "LKFF", "KFLKF", "ASTDE", "FFKL"]})
+    cases.sort(key=lambda c: -(len(c["seq"]) ** 3 if "seq" in c else (c["N"] ** 2 / 8 if "N" in c else 10 ** 6)))
     nsh = 16 * 10
     acc = core.pmap(shard, [cases[i::nsh] for i in range(nsh)])
     return core.finish(
@@ -220,7 +264,8 @@ def run(tier, seed, t0):
              "x user alphabets %s x every window 1..N+1 x every step 1..N x word sizes 1..6 (LC): shape (2,floor((N-w)/s)+1), "
              "integral strictly increasing positions within 1..N, values in [0,1]; all configurations of a word are asked of ONE live object; locality (each value == the one-window profile "
              "of a fresh object built from that window), WF == Shannon entropy to base alphabet-size of the independently reduced "
-             "window, windows with equal reduced strings give equal values (all three types), w>N and 6 unknown types rejected; plus every (N,w,s) with N<=%d on a periodic 20-letter sequence for shape "
+             "window, windows with equal reduced strings give equal values (all three types), w>N and 6 unknown types rejected; an array returned earlier must not be modified by a later call; in a freshly imported "
+             "package four 130-residue sequences lacking whole reduced classes are profiled first and a battery of short words afterwards; plus every (N,w,s) with N<=%d on a periodic 20-letter sequence for shape "
              "and position row; non-trivial = words with >=2 distinct letters" % (N1, N2, sizes, uas, NL),
         bounds={"N_LKF": N1, "N_ASTDE": N2, "sizes": sizes, "user_alphabets": uas, "lattice_N": NL},
         assumptions=["documented reduced alphabets pinned in vmc/refmodel/tables.py:REDUCED (also judged by C12)"])
